@@ -345,7 +345,26 @@ def gen_noise_const():
         ("MAX_PAYLOAD_LEN", p, "MAX_PAYLOAD_LEN", None),
         ("LENGTH_FIELD_LEN", p, "LENGTH_FIELD_LEN", None),
         ("MAX_FRAME_LEN", p, "MAX_FRAME_LEN", None),
-    ])
+    ]) .replace("\nend EraVerif.Gen.NoiseConst", gen_noise_handshake_buf(p) + "\nend EraVerif.Gen.NoiseConst")
+
+
+def gen_noise_handshake_buf(p):
+    """Length of the scratch buffer of `Stream::handshake`, into which a peer-announced u16 number of bytes is read
+    (`&mut buf[..n]`, `n = u16::from_le_bytes(..) as usize`) before any authentication."""
+    _, body = find_method_body(read(p), "handshake")
+    if not re.search(r"let n = u16::from_le_bytes\(msg_size\) as usize; io::read_exact\(ctx, &mut stream, &mut buf\[\.\.n\]\)", body):
+        raise TranslateError("handshake: the read `n = u16::from_le_bytes(msg_size) as usize; read_exact(.., &mut buf[..n])` was not found")
+    m = re.search(r"let mut buf = (?:vec!)?\[0(?:u8)?; ([^\]]+)\];", body)
+    if not m:
+        raise TranslateError("handshake: declaration of the scratch buffer `buf` not found")
+    e = m.group(1).strip()
+    if re.fullmatch(r"[0-9_]+", e):
+        val = int(e.replace("_", ""))
+    else:
+        ty, ce = find_const(read(p), e)
+        val = const_eval(parse_expr(ce), {})
+    return (f"/-- length of the scratch buffer of `Stream::handshake` (`{m.group(0)}`) -/\n"
+            f"def HANDSHAKE_BUF_LEN : Nat := {val}\n")
 
 
 def gen_mux_const():
